@@ -996,11 +996,12 @@ func init() {
 					"twice_runs":                         s.Counters["twice_runs"],
 					"AB_pairs_with_every_cut_enumerated": map[string]int64{"encoder": s.Counters["enumerated_AB_pairs_encoder"], "renderer": s.Counters["enumerated_AB_pairs_renderer"]},
 					"reach_probes": map[string]int64{
-						"Encoder aborted inside an open path":  s.Counters["probe_encoder_aborted_inside_open_path"],
-						"Renderer aborted inside an open path": s.Counters["probe_renderer_aborted_inside_open_path"],
-						"second use drew something":            s.Counters["probe_second_use_drew_something"],
-						"second use painted a gradient":        s.Counters["probe_second_use_painted_gradient"],
-						"more than one abort/restart round":    s.Counters["probe_multiple_abort_restart_rounds"],
+						"Encoder aborted inside an open path":                                         s.Counters["probe_encoder_aborted_inside_open_path"],
+						"Renderer aborted inside an open path":                                        s.Counters["probe_renderer_aborted_inside_open_path"],
+						"second use drew something":                                                   s.Counters["probe_second_use_drew_something"],
+						"second use painted a gradient":                                               s.Counters["probe_second_use_painted_gradient"],
+						"more than one abort/restart round":                                           s.Counters["probe_multiple_abort_restart_rounds"],
+						"cases in which the Renderer value moved to another address between the uses": s.Counters["cases_where_the_renderer_value_moved_between_uses"],
 						"cases with further uneventful uses between the first use and the compared one (1-3, around 256 and 512, around 65536)": s.Counters["cases_with_idle_uses_in_between"],
 						"cases set aside because the code panicked in both arms (C02 reports panics)":                                           s.Counters["cases_set_aside_because_the_code_panicked"],
 						"Bytes asked twice inside an open path":                                                                                 s.Counters["probe_bytes_twice_inside_open_path"],
